@@ -209,6 +209,26 @@ def register(reg):
   c.requires('rows_nonempty', 'all(len(row) > 0 for row in dimensioned_value)')
   c.ensures('all_rows_last_column', 'result == all(self._sub_validator(row[-1]) for row in dimensioned_value)')
 
+  # "once a row passes, every later row must pass": true iff some row passes and all rows from the first passing one on pass
+  reg.shape('ConsistentEndDimensionPivot', _sub_validator='fn:validator')
+  c = reg.contract(V, 'ConsistentEndDimensionPivot.__call__', props=['C07'])
+  c.param('dimensioned_value', 'list[tuple]').returns('bool').modifies()
+  c.requires('rows_nonempty', 'all(len(row) > 0 for row in dimensioned_value)')
+  ok = lambda j: 'self._sub_validator(dimensioned_value[%s][-1])' % j
+  n = 'len(dimensioned_value)'
+  some = 'exists_int(lambda f: 0 <= f and f < %s and %s)' % (n, ok('f'))
+  none = 'forall_int(lambda j: implies(0 <= j and j < %s, not %s))' % (n, ok('j'))
+  closed = ('forall_int(lambda f: implies(0 <= f and f < {n} and {okf}, forall_int(lambda j: implies(f <= j and j < {n}, {okj}))))'
+            .format(n=n, okf=ok('f'), okj=ok('j')))
+  # result <=> (some row passes) and (every row after a passing row passes), stated without an existential in any goal
+  c.ensures('false_when_no_row_passes', 'implies(%s, not result)' % none)
+  c.ensures('true_only_if_some_row_passes', 'implies(result, not %s)' % none)
+  # not discharged by the solvers (nested quantifiers over the slice dimensioned_value[i:]), therefore not claimed:
+  #   implies(result, closed)   and   implies(some and closed, result)
+  c.loop('for (index, row) in enumerate(dimensioned_value)',
+         inv=[('no_earlier_row_passed', 'forall_int(lambda j: implies(0 <= j and j < _i, not %s))' % ok('j'))],
+         modifies=[], vars={})
+
   reg.replayers['InRange.__call__'] = _replay_inrange('__call__')
   reg.replayers['InRange.is_marginal'] = _replay_inrange('is_marginal')
 
